@@ -244,10 +244,16 @@ pub fn batch(prop: &str, seed: u64, runs: u64, max_seconds: u64, nworkers: usize
                 .unwrap(),
         );
     }
+    let mut worker_panics = 0;
     for h in hs {
-        let _ = h.join();
+        if h.join().is_err() {
+            worker_panics += 1;
+        }
     }
-    let a = Arc::try_unwrap(agg).ok().unwrap().into_inner().unwrap();
+    let mut a = Arc::try_unwrap(agg).ok().unwrap().into_inner().unwrap();
+    if worker_panics > 0 {
+        a.harness_errors.push(format!("{} worker thread(s) panicked outside a judged call (harness bug; re-run with VSIM_PANIC_TRACE=1)", worker_panics));
+    }
     (a, start.elapsed().as_secs_f64(), capped.load(Ordering::SeqCst))
 }
 
@@ -371,8 +377,8 @@ pub fn check(prop: &str, tier_name: &str, runs_override: Option<u64>, secs_overr
     say(&format!("check {} tier={} VERIF_SEED={} runs<={} cap={}s workers={}", prop, tier.name, seed, tier.runs, tier.max_seconds, nw));
     let (agg, wall, capped) = batch(prop, seed, tier.runs, tier.max_seconds, nw);
     if !agg.harness_errors.is_empty() {
-        for e in &agg.harness_errors {
-            say(&format!("HARNESS-ERROR {}", e));
+        for e in agg.harness_errors.iter().take(5) {
+            say(&format!("HARNESS-ERROR {}", e.chars().take(300).collect::<String>()));
         }
         write_evidence(prop, &tier, seed, &agg, wall, capped, 0, &[]);
         return 2;
@@ -388,12 +394,18 @@ pub fn check(prop: &str, tier_name: &str, runs_override: Option<u64>, secs_overr
             nondet.push(*i);
         }
     }
-    if !nondet.is_empty() {
-        say(&format!("HARNESS-ERROR nondeterministic event log for run indices {:?}", nondet));
-        write_evidence(prop, &tier, seed, &agg, wall, capped, 0, &[]);
-        return 2;
-    }
     let known = load_known();
+    let any_unlisted = agg.found.keys().any(|key| !known.iter().any(|k| k.property == prop && glob(&k.key, key)));
+    if !nondet.is_empty() {
+        if !any_unlisted {
+            say(&format!("HARNESS-ERROR nondeterministic event log for run indices {:?}", nondet));
+            write_evidence(prop, &tier, seed, &agg, wall, capped, 0, &[]);
+            return 2;
+        }
+        // violations were found as well: they are reported only if their minimised replay
+        // reproduces in a fresh process (checked below), so a divergence cannot fake one
+        say(&format!("note: event logs of run indices {:?} differ between two executions (behaviour depends on something outside the simulator, e.g. the wall clock)", nondet));
+    }
     let mut n_viol = 0;
     let mut replay_paths = vec![];
     let mut known_hit: BTreeSet<String> = BTreeSet::new();
